@@ -1131,3 +1131,33 @@ fn c02_flow_write_after_head() {
     core::mem::forget(r);
     core::mem::forget(flow);
 }
+
+//@ props: C09 C11
+//@ tier: thorough
+//@ unwind: 6
+//@ unwindset: memcmp=14 from_static=14 extend_with=10 FnvHasher=10 3all5check=18 eq_ignore_ascii_case=18 from_fn=6
+//@ timeout: 3000
+//@ mem: 32
+//@ encodes: Flow::<Prepare>::new, Flow::<Prepare>::send_body_despite_method, CallHolder::convert_to_send_body, HeaderIterExt::has_expect_100
+//@ vars: concrete: GET http/1.1 request carrying Expect: 100-continue
+//@ bounds: this request
+//@ outside: other body-less methods (same code path)
+//@ clause: a body-less method with Expect: 100-continue for which the caller asks to send a body despite the method awaits 100 after the head (body due and await flag set once the body is due)
+#[kani::proof]
+fn c09_get_expect_despite_method_awaits_100() {
+    let mut req = ah::mk_request(0, 2);
+    req.headers_mut().append(http::header::EXPECT, HeaderValue::from_static("100-continue"));
+    match Flow::new(req) {
+        Err(e) => {
+            core::mem::forget(e);
+            assert!(false, "C09/flow-construction-succeeds");
+        }
+        Ok(mut f) => {
+            f.send_body_despite_method();
+            assert!(f.inner.should_send_body && holder_kind(&f.inner.call) == 1, "C09/despite-method-makes-a-body-due");
+            assert!(f.inner.await_100_continue, "C09/await100-follows-the-head-iff-body-due-and-expect");
+            kani::cover!(true, "reached");
+            core::mem::forget(f);
+        }
+    }
+}
